@@ -33,9 +33,10 @@ SNEP, NAME_A, NAME_B = 'urn:nfc:sn:snep', 'urn:nfc:sn:a', 'urn:nfc:xsn:b.c'
 BIND_ARGS = (None, 0, 1, 4, 15, 16, 31, 32, 63, 64, -1,
              SNEP, NAME_A, NAME_B, 'urn:nfc:sn:sdp', 'urn:nfc:sn:', 'foo', 3.5)
 REBIND_ARGS = (None, 33, NAME_A)
-RESOLVE_NAMES = (SNEP, NAME_A, NAME_B, 'urn:nfc:sn:zz')
+RESOLVE_NAMES = (SNEP, NAME_A, NAME_B, 'urn:nfc:sn:ab', 'urn:nfc:sn:')
 CONNECT_NAMES = (SNEP, NAME_A, NAME_B)
 CONNECT_ADDRS = (4, 16, 32)
+KEEP_NAMES = (NAME_A, NAME_B)      # connect and keep the connection open
 SENDTO_ADDRS = (1, 4, 16, 17, 32, 33)
 KINDS = (addrtable.LDL, addrtable.DLC, addrtable.RAW)
 DGRAMS = (b'\x11\x22\x33', b'\x44')
@@ -86,6 +87,7 @@ class Spec(object):
         w.bg_closable = None
         w.closed_names = set()         # names whose last socket was closed
         w.diverged = False
+        w.bkeep = None                 # peer end of a connection kept open
         w.lb = B.socket(llc.LOGICAL_DATA_LINK)      # peer datagram socket
         B.bind(w.lb)                                # 32 at B
         w.rb = B.socket(llc.RAW_ACCESS_POINT)       # scripted peer endpoint
@@ -178,6 +180,8 @@ class Spec(object):
             acts.append(('close_bg',))
         acts += [('resolve', n) for n in RESOLVE_NAMES]
         acts += [('connect', d) for d in CONNECT_NAMES + CONNECT_ADDRS]
+        if free and w.bkeep is None:
+            acts += [('connect_keep', d) for d in KEEP_NAMES]
         acts += [('sendto', a) for a in SENDTO_ADDRS]
         return acts
 
@@ -346,7 +350,15 @@ class Spec(object):
         m = w.model
         addr = m.addr_of.get(key)
         name = m.name_of(addr) if addr is not None else None
-        w.A.close(s.sock)
+        if s.kind == addrtable.DLC and s.sock.state.ESTABLISHED:
+            # the kept connection: close() sends DISC and waits for the DM
+            o = lp.run_blocking(lambda: w.A.close(s.sock), w.A, w.B)
+            assert o.done and o.exc is None, (o.done, o.exc)
+            if w.bkeep is not None:
+                w.B.close(w.bkeep)
+                w.bkeep = None
+        else:
+            w.A.close(s.sock)
         m.close(key)
         if addr is not None and m.is_free(addr) and name is not None:
             w.closed_names.add(name)
@@ -409,7 +421,12 @@ class Spec(object):
                 out.append(key)
         return out
 
-    def op_connect(self, w, viol, dest):
+    def op_connect_keep(self, w, viol, dest):
+        """connect by name; the accepted socket stays open in a free slot
+        (it shares the listener's address: 'closing the last socket')."""
+        self.op_connect(w, viol, dest, keep=True)
+
+    def op_connect(self, w, viol, dest, keep=False):
         import nfc.llcp
         import nfc.llcp.llc as llc
         A, B = w.A, w.B
@@ -433,7 +450,8 @@ class Spec(object):
             def op():
                 B.connect(cs, dest)
                 peer = B.getpeername(cs)
-                B.close(cs)            # DISC, waits for the DM
+                if not keep:
+                    B.close(cs)        # DISC, waits for the DM
                 return peer
             out = lp.run_blocking(op, B, A, after_round=hook)
             if out.link_error is not None or out.capped:
@@ -471,7 +489,23 @@ class Spec(object):
             else:
                 raise RuntimeError("connect: answer %s" % answers[0])
         lp.quiesce(A, B)
+        kept = False
+        if keep and result[0] == 'connected' and len(accepted) == 1 \
+                and accepted[0][0] in targets:
+            # the connection stays: the accepted socket takes a free slot
+            key, client = accepted[0]
+            slot = [i for i, s in enumerate(w.slots) if s is None][0]
+            w.slots[slot] = Slot(addrtable.DLC, client)
+            m.attach(slot, addrtable.DLC, m.addr_of[key])
+            w.bkeep = cs
+            kept = True
+            self.count('connection_kept')
+        elif keep and result[0] == 'connected':
+            o = lp.run_blocking(lambda: B.close(cs), B, A)
+            assert o.done and o.exc is None, o.exc
         for key, client in accepted:
+            if kept:
+                break
             if client.state.ESTABLISHED:
                 # peer never disconnected (it blocked): tear down from here
                 o = lp.run_blocking(lambda: A.close(client), A, B)
@@ -658,6 +692,7 @@ def main(tier='quick', seed=0, part=None):
     run.extra['alphabet'] = dict(
         bind=[repr(a) for a in BIND_ARGS], rebind=[repr(a) for a in REBIND_ARGS],
         resolve=RESOLVE_NAMES, connect=CONNECT_NAMES + CONNECT_ADDRS,
+        connect_keep=KEEP_NAMES,
         sendto=SENDTO_ADDRS, socket=KINDS)
     run.extra['soundness'] = dict(
         snapshot_vs_replay_checks=tot['sound_checks'],
@@ -674,9 +709,10 @@ def main(tier='quick', seed=0, part=None):
         "in a virtual thread; connect by address and datagrams come from "
         "scripted peer sockets; resolve() is run as its two halves (request "
         "queued / answer read) on the controller thread",
-        "accepted connections are closed again inside the connect step; at "
-        "most %d sockets are open on A besides the prepared ones" % max(
-            c[1] for c, _ in plan(tier)),
+        "accepted connections are closed again inside the connect step, "
+        "except one connection at a time kept open by connect_keep (its "
+        "accepted socket takes a socket slot); at most %d sockets are open "
+        "on A besides the prepared ones" % max(c[1] for c, _ in plan(tier)),
         "the peer's SDP cache is honoured: only uncached resolve() answers "
         "are compared with the table",
     ]
@@ -696,7 +732,7 @@ def sample_trace():
     spec = Spec(('init', 2))
     hist = [('socket', 0, 'DLC'), ('bind', 0, NAME_A), ('listen', 0),
             ('resolve', NAME_A), ('connect', NAME_A), ('close', 0),
-            ('resolve', 'urn:nfc:sn:zz')]
+            ('resolve', 'urn:nfc:sn:ab')]
     w = spec.init()
     steps = []
     for a in hist:
